@@ -1171,7 +1171,8 @@ def spec_append(spec1, spec2, pixshift=0):
         else:
             nadd2 = pixshift
     maxpix = max(npix1 + nadd1, npix2 + nadd2)
-    spec3 = np.zeros((nrows, maxpix), dtype=spec1.dtype)
+    spec3 = np.zeros((nrows, maxpix),
+                     dtype=np.promote_types(spec1.dtype, spec2.dtype))
     spec3[0:nrows1, nadd1:nadd1+npix1] = spec1
     spec3[nrows1:nrows, nadd2:nadd2+npix2] = spec2
     return spec3
